@@ -713,6 +713,63 @@ func (e *Exec) inline(s *State, site ssa.Instruction, callee *ssa.Function, args
 		}
 		return
 	}
+	// split-returns: the callee's return paths are not merged; the rest of the calling
+	// block is executed once per path and each path continues in a lane of its own
+	if call, ok := site.(*ssa.Call); ok && ns != nil && sub.spec != nil && sub.spec.SplitReturns && e.curFlow != nil && len(sub.rets) > 1 && r.nlanes+len(sub.rets) < 64 {
+		blk := call.Block()
+		base := s.lane
+		r.splitN++
+		for ri, rp := range sub.rets {
+			if rp.st.pc == "false" {
+				continue
+			}
+			ps := rp.st.clone()
+			ps.regs = map[ssa.Value]Val{}
+			for k, v := range saved {
+				ps.regs[k] = v
+			}
+			ps.outer = s.outer
+			if res != nil {
+				ps.regs[res] = rp.vals
+			}
+			ps.lane = fmt.Sprintf("%s/s%dr%d", base, r.splitN, ri)
+			r.nlanes++
+			e.enter(ps)
+			after := false
+			for _, in := range blk.Instrs {
+				if in == ssa.Instruction(call) {
+					after = true
+					continue
+				}
+				if !after || ps.pc == "false" {
+					continue
+				}
+				switch x := in.(type) {
+				case *ssa.Return:
+					var vals Val
+					for _, rv := range x.Results {
+						vals = append(vals, e.val(ps, rv)...)
+					}
+					e.rets = append(e.rets, retPoint{st: ps.clone(), vals: vals, pos: x.Pos(), blk: blk.Index})
+				case *ssa.If:
+					cond := e.intToBool(e.val(ps, x.Cond)[0])
+					e.curFlow(blk, blk.Succs[0], cond, ps)
+					e.curFlow(blk, blk.Succs[1], e.c.not(cond), ps)
+				case *ssa.Jump:
+					e.curFlow(blk, blk.Succs[0], "true", ps)
+				default:
+					e.step(ps, in)
+				}
+			}
+		}
+		s.pc = "false"
+		s.regs = saved
+		if res != nil {
+			s.regs[res] = rs
+		}
+		e.blockDone = blk
+		return
+	}
 	if ns == nil {
 		// callee never returns normally on any path: the continuation is unreachable
 		s.pc = "false"
@@ -1104,6 +1161,9 @@ func (e *Exec) unroll(b *ssa.BasicBlock, ins []edge, k int, complete bool, outer
 // execRegion runs the blocks of `order` (reverse post-order) from the given incoming edges.
 func (e *Exec) execRegion(order []*ssa.BasicBlock, incoming map[*ssa.BasicBlock][]edge, flow func(from, to *ssa.BasicBlock, cond string, s *State), unrolling *ssa.BasicBlock) {
 	c := e.c
+	prevFlow := e.curFlow
+	e.curFlow = flow
+	defer func() { e.curFlow = prevFlow }()
 	for _, b := range order {
 		if e.doneBlk[b] {
 			continue
@@ -1206,6 +1266,10 @@ func (e *Exec) execRegion(order []*ssa.BasicBlock, incoming map[*ssa.BasicBlock]
 			s.regs[phi] = r
 		}
 		for _, in := range b.Instrs {
+			if e.blockDone == b {
+				e.blockDone = nil
+				break // a split-returns call already ran the rest of this block path by path
+			}
 			switch x := in.(type) {
 			case *ssa.Phi:
 				continue
